@@ -7,41 +7,41 @@ import time
 EXPL = "exploration"
 
 PROPS = {
-    "C01": dict(level=EXPL, quick=10000, thorough=300000,
+    "C01": dict(level=EXPL, quick=30000, thorough=1000000,
                 rule="seeded plans (API calls, broker traffic, faults) x schedules; a run is non-trivial when at least one QoS 1/2 publish completed successfully; distinct = distinct trace hash"),
-    "C02": dict(level=EXPL, quick=10000, thorough=300000,
+    "C02": dict(level=EXPL, quick=30000, thorough=1000000,
                 rule="seeded fault sequences followed by a healed suffix of 200 simulated s; non-trivial = at least one reconnect happened and at least one tracked operation completed; distinct = distinct trace hash"),
-    "C03": dict(level=EXPL, quick=10000, thorough=300000,
+    "C03": dict(level=EXPL, quick=30000, thorough=1000000,
                 rule="seeded plans with QoS 1/2 traffic and connection loss; non-trivial = a PUBLISH was retransmitted (DUP) or a PUBREL was observed; distinct = distinct trace hash"),
-    "C04": dict(level=EXPL, quick=10000, thorough=300000,
+    "C04": dict(level=EXPL, quick=30000, thorough=1000000,
                 rule="broker acts as QoS 0/1/2 sender with MQTT retransmission; non-trivial = at least one broker message reached async_receive; distinct = distinct trace hash"),
-    "C05": dict(level=EXPL, quick=10000, thorough=300000,
+    "C05": dict(level=EXPL, quick=30000, thorough=1000000,
                 rule="cancel()/async_disconnect/signals/destruction placed between handler steps; non-trivial = at least one operation completed with operation_aborted; distinct = distinct trace hash"),
-    "C06": dict(level=EXPL, quick=10000, thorough=300000,
+    "C06": dict(level=EXPL, quick=30000, thorough=1000000,
                 rule="non-trivial = some connection carried >= 2 PUBLISH packets of different operations; distinct = distinct trace hash"),
-    "C07": dict(level=EXPL, quick=10000, thorough=300000,
+    "C07": dict(level=EXPL, quick=30000, thorough=1000000,
                 rule="non-trivial = the broker's in-flight counter reached the announced Receive Maximum on some connection; distinct = distinct trace hash"),
-    "C08": dict(level=EXPL, quick=8000, thorough=250000, components=["pid_alloc"],
+    "C08": dict(level=EXPL, quick=24000, thorough=800000, components=["pid_alloc"],
                 rule="system runs: non-trivial = >= 3 identifier-carrying packets seen; component: packet_id_allocator vs std::set model over seeded alloc/free histories (each history distinct by hash)"),
-    "C09": dict(level=EXPL, quick=10000, thorough=300000,
+    "C09": dict(level=EXPL, quick=30000, thorough=1000000,
                 rule="async_disconnect at seeded instants in every client state; non-trivial = async_disconnect was initiated on a running client; distinct = distinct trace hash"),
-    "C10": dict(level=EXPL, quick=10000, thorough=300000,
+    "C10": dict(level=EXPL, quick=30000, thorough=1000000,
                 rule="seeded configurations x handshake outcome sequences; non-trivial = >= 2 connection attempts; distinct = distinct trace hash"),
-    "C11": dict(level=EXPL, quick=8000, thorough=250000, components=["async_mutex"],
+    "C11": dict(level=EXPL, quick=24000, thorough=800000, components=["async_mutex"],
                 rule="system runs: non-trivial = >= 1 reconnect; component: async_mutex vs FIFO model under seeded lock/unlock/cancel schedules"),
-    "C12": dict(level=EXPL, quick=8000, thorough=250000,
+    "C12": dict(level=EXPL, quick=24000, thorough=800000,
                 rule="keep-alive configurations x traffic/silence patterns in exact virtual time; non-trivial = a PINGREQ was observed or a keep-alive timeout was judged; distinct = distinct trace hash"),
-    "C13": dict(level=EXPL, quick=10000, thorough=300000,
+    "C13": dict(level=EXPL, quick=30000, thorough=1000000,
                 rule="subscribe / reconnect / Session Present sequences; non-trivial = a reconnect ended with Session Present 0 after a successful subscribe; distinct = distinct trace hash"),
-    "C14": dict(level=EXPL, quick=10000, thorough=300000,
+    "C14": dict(level=EXPL, quick=30000, thorough=1000000,
                 rule="non-trivial = at least one SUBACK/UNSUBACK was delivered; distinct = distinct trace hash"),
-    "C15": dict(level=EXPL, quick=10000, thorough=300000,
+    "C15": dict(level=EXPL, quick=30000, thorough=1000000,
                 rule="capability sets x boundary requests; non-trivial = broker announced >= 1 limiting capability and >= 1 request was rejected locally or sent on a boundary; distinct = distinct trace hash"),
-    "C17": dict(level=EXPL, quick=10000, thorough=300000,
+    "C17": dict(level=EXPL, quick=30000, thorough=1000000,
                 rule="strict independent decoder on every byte the client writes; non-trivial = >= 3 packets from the client; distinct = distinct trace hash"),
-    "C18": dict(level=EXPL, quick=10000, thorough=300000,
+    "C18": dict(level=EXPL, quick=30000, thorough=1000000,
                 rule="reference-encoded broker packets (short forms, property mixes) under chunking; non-trivial = >= 3 packets to the client incl. one with properties; distinct = distinct trace hash"),
-    "C19": dict(level=EXPL, quick=10000, thorough=300000,
+    "C19": dict(level=EXPL, quick=30000, thorough=1000000,
                 rule="hostile broker (mutations + random bytes) with ASan/UBSan; non-trivial = at least one hostile packet was delivered; distinct = distinct trace hash"),
     "C20": dict(level="fault_enumeration", quick=0, thorough=0, components=["rc_table"], components_only=True, exhaustive=True,
                 rule="complete enumeration of 9 categories x 256 byte values"),
